@@ -112,6 +112,8 @@ fn run_c04(input: RunInput) -> ScenFuture {
             let k = r.gen_range(0..conns.len());
             let p = conns[k].peer_id();
             let choice = r.gen_range(0..100);
+            let model_before = model_events.len();
+            let mut seen_before: Vec<usize> = subs.iter().map(|(s, _)| s.history.len()).collect();
             let desc;
             if choice < 40 && !added.contains(&k) {
                 added.insert(k);
@@ -166,6 +168,7 @@ fn run_c04(input: RunInput) -> ScenFuture {
             } else if choice < 93 {
                 let (rx, snap) = peers.subscribe();
                 subs.push((Subscription::from_parts(rx, snap), model_events.len()));
+                seen_before.push(0);
                 desc = "subscribe".to_string();
             } else {
                 desc = "peers".to_string();
@@ -196,9 +199,18 @@ fn run_c04(input: RunInput) -> ScenFuture {
             let now = w.now_ns();
             for (i, (s, from)) in subs.iter_mut().enumerate() {
                 s.drain(now);
-                let got: Vec<PeerEvent> = s.history.iter().map(|e| e.ev.clone()).collect();
-                if got != model_events[*from..] {
-                    w.violate("event-sequence-differs-from-model", "subscription", format!("after {ops:?}: subscription {i} saw {got:?}, model {:?}", &model_events[*from..]));
+                // events published by this operation, compared by kind and peer (the property does
+                // not fix the reason, and a replacement may be announced as Lost+New or not at all)
+                let kind = |e: &PeerEvent| match e {
+                    PeerEvent::NewPeer(p) => (true, *p),
+                    PeerEvent::LostPeer(p, _) => (false, *p),
+                };
+                let got: Vec<(bool, PeerId)> = s.history[s.history.len() - (s.history.len() - seen_before[i].min(s.history.len()))..].iter().map(|e| kind(&e.ev)).collect();
+                let want: Vec<(bool, PeerId)> = model_events[model_before.max(*from)..].iter().map(kind).collect();
+                let replacement = want.len() == 2 && !want[0].0 && want[1].0 && want[0].1 == want[1].1;
+                let ok = got == want || (replacement && got.is_empty());
+                if !ok {
+                    w.violate(if want.is_empty() { "spurious-event" } else { "event-sequence-differs-from-model" }, "subscription", format!("after {ops:?}: the last operation published {got:?} to subscription {i}, the reference model {want:?} (true = NewPeer)"));
                 }
                 if let Some(e) = &s.alternation_error {
                     w.violate("event-alternation", "subscription", e.clone());
